@@ -38,6 +38,12 @@ Definition c14_allow : list allow := [
   (* PreSession-only API: runs inside PostDial / PostAccept hooks on the goroutine that owns the
      (re)dial; a redial holds session.lock; nothing else reads protoFuncs *)
   mkAllow "session" "protoFuncs" "session.ModifySocket" "PreSession API: only callable from PostDial/PostAccept hooks of the dialing goroutine (cleared with the race detector: redial scenario with a ModifySocket plugin)";
+  (* thrift TTransport callback: BaseTTransport.Read is invoked only by the read-side
+     THeaderProtocol (rProtocol, its own transport instance since fix 31634c9) from inside
+     binaryUnpack / structUnpack, which hold unpackLock; the write-side transport never reads.
+     The call goes through the thrift library, so the lock is not lexically visible. *)
+  mkAllow "ReadCounter" "count" "BaseTTransport.Read"
+    "transport callback of the read-side protocol: runs inside Unpack under unpackLock (called through the thrift library); cleared with the race detector (thrift scenarios)";
   (* documented: the caller holds the socket lock *)
   mkAllow "socket" "Conn" "socket.RawLocked" "documented 'make sure the external is locked before calling'"
 ].
